@@ -177,7 +177,7 @@ def flip_compare(tree):
 TRANSFORMS = {'invert-if': invert_if, 'flip-compare': flip_compare, 'reformat': reformat, 'rename-locals': rename_locals, 'add-logging': add_logging, 'shift-lines': shift_lines}
 
 
-def run(name, keep=False):
+def run(name, keep=False, only=None, results=None):
     tmp = tempfile.mkdtemp(prefix='wpull-benign-')
     try:
         shutil.copytree(os.path.join(REPO, 'wpull'), os.path.join(tmp, 'wpull'), ignore=shutil.ignore_patterns('__pycache__', '*.pyc'))
@@ -202,11 +202,16 @@ def run(name, keep=False):
             n += 1
         with open(os.path.join(VERIF, 'MANIFEST.json')) as fh:
             props = [c['property_id'] for c in json.load(fh)['checks']]
+        if only:
+            props = [p_ for p_ in props if p_ in only]
         env = dict(os.environ)
+        env['VERIF_NO_SENSITIVITY'] = '1'
         env.update({'WPULL_ROOT': tmp, 'VERIF_EVIDENCE_DIR': os.path.join(tmp, 'ev'), 'VERIF_OUT_DIR': os.path.join(tmp, 'out')})
         bad = 0
         for pid in props:
             r = subprocess.run(['/venv/bin/python', '-m', 'sa.check', pid], cwd=VERIF, env=env, capture_output=True, text=True)
+            if results is not None:
+                results.setdefault(pid, {})[name] = r.returncode
             if r.returncode != 0:
                 bad += 1
                 lines = [ln for ln in r.stdout.splitlines() if ln.startswith(('FINDING', 'ANALYSIS-ERROR'))]
@@ -227,9 +232,18 @@ def run(name, keep=False):
 
 
 if __name__ == '__main__':
-    args = [a for a in sys.argv[1:] if not a.startswith('--')]
-    keep = '--keep' in sys.argv
+    import argparse
+    ap = argparse.ArgumentParser()
+    ap.add_argument('names', nargs='*')
+    ap.add_argument('--keep', action='store_true')
+    ap.add_argument('--prop', action='append', help='only run these checks')
+    ap.add_argument('--json', help='write {property: {transform: exit code}} here')
+    a = ap.parse_args()
     total = 0
-    for nm in (args or list(TRANSFORMS)):
-        total += run(nm, keep)
+    res = {}
+    for nm in (a.names or list(TRANSFORMS)):
+        total += run(nm, a.keep, only=a.prop, results=res)
+    if a.json:
+        with open(a.json, 'w') as fh:
+            json.dump(res, fh)
     sys.exit(1 if total else 0)
